@@ -154,7 +154,8 @@ func Merge[T any](remoteWrite bool, s1 []T, s2 []T) ([]T, bool) {
 		s1ItemHash := hashKey(s1Item)
 		s2Item, exist := m2[s1ItemHash]
 		writeAllowed := writeAllowed(s1Item)
-		if !writeAllowed && remoteWrite {
+		// only the items that should be changed decide if a remote write is allowed
+		if exist && !writeAllowed && remoteWrite {
 			success = false
 		}
 		// if exists and overwriting is allowed
@@ -176,9 +177,13 @@ func Merge[T any](remoteWrite bool, s1 []T, s2 []T) ([]T, bool) {
 	for _, s2Item := range s2 {
 		s2ItemHash := hashKey(s2Item)
 		_, exist := m1[s2ItemHash]
-		if !exist && !remoteWrite {
-			// only local updates can append data
-			result = append(result, s2Item)
+		if !exist {
+			if remoteWrite {
+				// only local updates can append data, so this remote write can not be applied completely
+				success = false
+			} else {
+				result = append(result, s2Item)
+			}
 		}
 	}
 
